@@ -452,6 +452,14 @@ class SymList(Mutable):
         return 'SymList(%s)' % self.name
 
 
+class SymSet:
+    """finite set of ints known only through its membership predicate (z3 Bool of an int-like value)."""
+
+    def __init__(self, contains_fn, name='set'):
+        self.contains_fn = contains_fn
+        self.name = name
+
+
 # ----------------------------------------------------------------------------- callables / classes
 class FuncVal:
     def __init__(self, node, module, name=None, cls=None, closure=None):
